@@ -68,8 +68,13 @@ def gen_plan(seed, tier):
     p["n_chunks"] = max(1, min(p["n_chunks"], maxc))
   plan = dict(run_seed=seed, dataset=desc, cls=name, params=p, unknown=unknown,
               history=None, ambient=r.randrange(10**6))
-  if r.random() < 0.35:
-    plan["history"] = dict(dataset=gen_dataset(r, dmax=5, tuples=False, big=True))
+  if r.random() < 0.45:
+    if r.random() < 0.5:
+      plan["history"] = dict(dataset=gen_dataset(r, dmax=5, tuples=False, big=True))
+    else:
+      # an earlier fit of the same object on the SAME points with other labels
+      plan["history"] = dict(same_X=True, relabel=r.choice(["shift", "other_unknown", "both"]),
+                             seed=r.randrange(10**6))
   return plan
 
 
@@ -196,13 +201,25 @@ def run_plan(plan):
   try:
     S = cls_of(name)(**copy.deepcopy(params))
     if plan["history"]:
-      Dh = make_data(plan["history"]["dataset"])
-      ph = None
+      hist = plan["history"]
+      if hist.get("same_X"):
+        rh = np_stream(hist["seed"], "relabel")
+        yh = D.y.copy()
+        if hist["relabel"] in ("shift", "both"):
+          lab = np.unique(D.y)
+          yh = lab[(np.searchsorted(lab, D.y) + 1) % len(lab)]     # every point changes class
+        if hist["relabel"] in ("other_unknown", "both"):
+          yh = yh.copy()
+          yh[rh.permutation(len(yh))[:max(1, len(yh) // 4)]] = -1
+        Xh = X.copy()
+        cov["with_history_same_X"] += 1
+      else:
+        Dh = make_data(hist["dataset"])
+        Xh, yh = Dh.X.copy(), Dh.y.copy()
       try:
         with world.observed():
-          Sh = cls_of(name)(**copy.deepcopy(params))
-          # an earlier life of the same object on other data (may fail: irrelevant)
-          S.fit(Dh.X.copy(), Dh.y.copy())
+          # an earlier life of the same object (may fail: irrelevant)
+          S.fit(Xh, yh)
       except Exception:
         pass
       cov["with_history"] += 1
